@@ -19,7 +19,7 @@ TRUSTED = [
     "hook H1 (injected millisecond clock) stands for steady_clock; g++/ASan/UBSan",
 ]
 ASSUME = [
-    "time scale 1, the host calls Execute after every clock advance (the property's stated schedule class), integer-millisecond clock",
+    "time scale 1, the host calls Execute after every clock advance (the property's stated schedule class), integer-millisecond clock; single advances of any size (the machine counts in Nat, so 2^24+1 or 2^40+1 ms are exact)",
     "seconds-to-milliseconds conversion of a wait literal is modelled as uint64_t(strtof(text) * 1000.f) in binary32, computed exactly by the renderer (tools/vlib/schedgen.py engine_ms); durations include ones that are not exact in binary32 (0.7, 0.9, 0.35 …) with frames one millisecond before, on and after every due time",
     "theorems are about every history of timer operations; that the engine performs exactly those operations is checked by correspondence, not proved",
 ]
@@ -52,15 +52,19 @@ def exhaustive(quick):
             prog.append(body)
         for sc in (scheds if not quick else scheds[:2]):
             cases.append(["reset", schedgen.script_line(prog), "call m t0"] + ["step %d" % x for x in sc] + ["step 1000", "thread-result"])
+    # one huge single clock advance (2^24+-1, +-3, 2^31+-1, 2^32+1 ...), then waits with frames at due-1 / due / due+1
+    cases += schedgen.huge_advance_family(quick)
     return cases
 
 
 def check(ctx):
     gens = [("timer", 300, 25000, timer_case), ("mixed", 100, 10000, mixed_case),
-            ("inexact", 60, 3000, schedgen.gen_inexact_case)]
+            ("inexact", 60, 3000, schedgen.gen_inexact_case), ("huge", 100, 5000, schedgen.gen_huge_case)]
     rule = ("programs of 1-5 thread bodies (mark / wait d / thread / end, d in {0,0,125,250,500} ms) and mixed programs with "
             "waittill/notify, under random frame schedules (steps from {0,50,125,250,300,1000} ms) plus every duration "
-            "assignment for 2-3 threads x 2 waits under fixed schedules; non-trivial = at least one marker printed; distinct by SHA-1")
+            "assignment for 2-3 threads x 2 waits under fixed schedules; schedules with ONE huge single clock advance (2^24+-1, +-3, 2^25+k, "
+            "2^31+-1, 2^32+-1, 2^40+1, random odd values up to 2^34; while nothing runs, while a thread sleeps, twice in a row, as "
+            "advance+execute) followed by waits whose frames land at due-1 / due / due+1; non-trivial = at least one marker printed; distinct by SHA-1")
     return schedcheck.run(ctx, PROP, PROPS_MODULE, PROPS_FILE, gens, TRUSTED, ASSUME, rule, exhaustive=exhaustive)
 
 
